@@ -78,7 +78,7 @@ fn gen_val(rng: &mut Rng) -> Vec<u8> {
 }
 
 fn gen_key(rng: &mut Rng) -> Vec<u8> {
-    rng.pick(&[&b"PATH"[..], b"HOME", b"LANG", b"K1", b"K2", b"K3", b"k1", b"LONGER_KEY_NAME", b"\xc3\xa9"]).to_vec()
+    rng.pick(&[&b"PATH"[..], b"HOME", b"LANG", b"K1", b"K2", b"K3", b"k1", b"home", b"Path", b"LONGER_KEY_NAME", b"\xc3\xa9"]).to_vec()
 }
 
 fn gen_call(rng: &mut Rng) -> BCall {
